@@ -49,8 +49,11 @@ CHECKS.update({
     'C12': ('model_checking', 'symbolic execution of the whole spec.Parse (real directive actions 12-19, AddPrecedence, symbol table) on a fixed small specification followed by every token sequence up to a length bound (kinds symbolic): for every accepted result the recorded precedence levels are compared with the directives read off the reference derivation tree - count, order, associativity, exactly the listed terminals, and the productions of every rule handle (members of the derived grammar, one per alternative)', '§7 C12 / §13.3'),
 })
 
+CHECKS.update({
+    'C07': ('model_checking', 'symbolic execution of the whole spec.Parse and Spec.DFA on four fixed openings followed by every token sequence up to a length bound (kinds symbolic, lexemes from small pools so that every documented defect arises): the specification is rejected iff a documented defect is present according to a well-formedness predicate evaluated on the reference derivation tree; diagnostics name only present defects; accepted specifications have exactly one definition per terminal', '§7 C07 / §13.3'),
+})
+
 NA = {
-    'C07': 'well-formedness checks run on hash tables keyed by fnv hashes and are reachable only through the whole parse; a solver decides nothing there that running the program does not (DESIGN.md §7 C07)',
     'C15': 'nondeterminism sources (map iteration, time-seeded shuffle) sit behind the whole automata/template stack; deciding technique is run-twice-and-diff, outside this family (DESIGN.md §7 C15)',
 }
 
